@@ -27,6 +27,13 @@ def num_of(text):
     return val
 
 
+def header_of(obj):
+    """The header lines of a TextBlock, from its public surface: str(obj) is header + lines, one EOL each."""
+    text = str(obj)
+    every = text.split('\n')[:-1] if text else []
+    return every[:max(0, len(every) - len(obj.lines))]
+
+
 def to_py(val, text_gen):
     """Build the Python content object described by a spec value."""
     k = val['k']
@@ -41,8 +48,10 @@ def to_py(val, text_gen):
     if k == 'dict':
         return {f'k{i}': to_py(x, text_gen) for i, x in enumerate(val['items'])}
     if k == 'block':
-        blk = text_gen.TextBlock()
-        blk._header = lines2py(val['h'])  # header has no setter; it is only set by the constructor
+        # public API only: the header goes in through the constructor (model header lines contain no line breaks, so
+        # they pass through unchanged), the lines through the setter
+        hdr = lines2py(val['h'])
+        blk = text_gen.TextBlock(header=hdr if hdr else None)
         blk.lines = lines2py(val['ls'])
         return blk
     raise ValueError(k)
